@@ -346,6 +346,64 @@ func RuleW2(c *Ctx) {
 			}
 		}
 	}
+	// a block comment is opened by comment signs only: an arm that leaves line mode for a
+	// block-comment state is taken on the comment sign itself (the third one in a row), never
+	// on text - `## note` is a line comment
+	var sign scanpds.ByteSet
+	for _, st := range m.States {
+		for _, p := range st.Paths {
+			for _, e := range p.Effects {
+				if e.Kind == scanpds.EPushCur {
+					sign = sign.Or(p.Set)
+				}
+			}
+		}
+	}
+	for _, id := range lmIDs {
+		st := m.States[id]
+		for _, p := range st.Paths {
+			last := -1
+			for _, e := range p.Effects {
+				if e.Kind == scanpds.EGoto {
+					last = e.Fn
+				}
+			}
+			if last < 0 || !block[last] {
+				continue
+			}
+			key := "opens-block:" + st.Name + "[" + p.Guards + "]"
+			if p.Set.SubsetOf(sign) {
+				sc.Holds(key, c.P.Pos(p.Pos), "block mode is entered on the comment sign only")
+			} else {
+				sc.Violation(key, c.P.Pos(p.Pos), "a line comment turns into a block comment on a byte that is not the comment sign: the text after `##` swallows everything up to the next `###` or the end of the file — "+m.Describe(st, p))
+			}
+		}
+	}
+	// what a comment swallows starts with the comment sign: every arm that leads from a state
+	// outside the comment machine into it is taken on the comment sign (bytes that follow the
+	// end of an annotation, say, are not comment text unless the author wrote a `#`)
+	for _, st := range m.States {
+		if r.CommentStates[st.ID] {
+			continue
+		}
+		for _, p := range st.Paths {
+			last := -1
+			for _, e := range p.Effects {
+				if e.Kind == scanpds.EGoto {
+					last = e.Fn
+				}
+			}
+			if last < 0 || !r.CommentStates[last] || p.Out == scanpds.OutErr {
+				continue
+			}
+			key := "enters-on-sign:" + st.Name + "[" + p.Guards + "]"
+			if p.Set.SubsetOf(sign) {
+				sc.Holds(key, c.P.Pos(p.Pos), "")
+			} else {
+				sc.Violation(key, c.P.Pos(p.Pos), "the comment machine is entered on a byte that is not the comment sign: what follows on the line is skipped as comment text although nobody wrote a comment — "+m.Describe(st, p))
+			}
+		}
+	}
 	// entries: the arm that pushes the current step goes to a comment state and does nothing else
 	for _, st := range m.States {
 		for _, p := range st.Paths {
@@ -778,6 +836,41 @@ func RuleWQ1(c *Ctx) {
 		}
 		if ends == 0 {
 			sc.Violation(st.Name, c.P.Pos(st.Decl.Pos()), "the unquoted-parameter state never ends the Parameter lexeme")
+		}
+	}
+	sc.End()
+}
+
+// RuleUS1: no byte is consumed unseen. An arm that is taken for every byte (the state does
+// not look at the byte at all) either hands the byte on (redispatch), ends in an error, or
+// lets the schema library measure the bytes (a library length call). An arm that consumes
+// whatever byte it got - `s.found(TextBegin); s.step = T; return nil` - hides that byte
+// from the classification the next state makes: a `(` that opens the parenthesised spelling
+// of a description, a line end, the end of input.
+func RuleUS1(c *Ctx) {
+	m, _, sc, ok := scannerBase(c, "US1", "every arm that is taken for all bytes alike redispatches the byte, is an error, or lets the library measure it - it never simply consumes it", 5)
+	if !ok {
+		return
+	}
+	full := scanpds.Full()
+	for _, st := range m.States {
+		for _, p := range st.Paths {
+			if p.Set != full {
+				continue
+			}
+			key := st.Name + "[" + p.Guards + "]"
+			lib := false
+			for _, e := range p.Effects {
+				if e.Kind == scanpds.ELibLen {
+					lib = true
+				}
+			}
+			switch {
+			case p.Out == scanpds.OutRedispatch, p.Out == scanpds.OutErr, lib:
+				sc.Holds(key, c.P.Pos(p.Pos), "")
+			default:
+				sc.Violation(key, c.P.Pos(p.Pos), "a byte is consumed without having been looked at: the next state never classifies it (an opening parenthesis, a line end or the end of input in that position is taken for ordinary text) — "+m.Describe(st, p))
+			}
 		}
 	}
 	sc.End()
